@@ -313,7 +313,7 @@ class Statistics:
 
         on_reverse_complement = (
             adapter_statistics.reverse_complemented
-            if self.reverse_complemented
+            if self.reverse_complemented is not None
             else None
         )
         return {
